@@ -59,9 +59,9 @@ func c12Param(c c12Case) (param string, present bool) {
 	switch c.Param {
 	case "absent":
 		return "", false
-	case "listed":
+	case "listed", "listed+unlisted":
 		return plain, true
-	case "unlisted":
+	case "unlisted", "unlisted+listed":
 		return "elsewhere.example:3389", true
 	case "placeholder-verbatim":
 		return listed, true
@@ -179,6 +179,13 @@ func c12Run(c c12Case, rep *Report) (viol, detail string) {
 	target := "/connect"
 	if present {
 		target += "?host=" + url.QueryEscape(param)
+	}
+	// a second value of the same parameter: the first one is the request
+	switch c.Param {
+	case "unlisted+listed":
+		target += "&host=" + url.QueryEscape(c.Hosts[0])
+	case "listed+unlisted":
+		target += "&host=" + url.QueryEscape("elsewhere.example:3389")
 	}
 	rec := b.Do(app, "GET", target)
 	body := rec.Body.String()
@@ -329,12 +336,12 @@ func c12Tunnel(c c12Case, tok, host string, port uint16, rep *Report) string {
 }
 
 func c12(env *Env, rep *Report) {
-	rep.Rule = "product of host-selection modes {roundrobin, signed, unsigned, any} x host lists {1 entry, 3 entries, with user placeholder} x host parameter {absent, listed, unlisted, placeholder entry verbatim, valid query token for a listed / unlisted subject, forged key, expired, wrong issuer, alg none} x user names {alice, alice@example.com, a@b@c, empty} x IdP subject {equal to the user name, different} x domain splitting {off, on} x user-name template {none, '{{ username }}@x', with '{{ token }}'} x session {none, fresh, logged in through the real callback} x 4 client address forms (peer only, forwarded IPv4, forwarded chain, a forwarded element that is not an address) (also with the login made from another address than the download); quick: template x address form on the diagonal (3 of 9 combinations), thorough: full product. Plus schedules with statement-level scheduling points (every statement of web, security, identity and rdp is a point): two logged-in browsers of different users download at the same time, without and with an .rdp template, every schedule with one deviation; every file must carry its own session's user, host, address and token. " +
+	rep.Rule = "product of host-selection modes {roundrobin, signed, unsigned, any} x host lists {1 entry, 3 entries, with user placeholder} x host parameter {absent, listed, unlisted, two values (unlisted then listed, listed then unlisted: the first is the request), placeholder entry verbatim, valid query token for a listed / unlisted subject, forged key, expired, wrong issuer, alg none} x user names {alice, alice@example.com, a@b@c, empty} x IdP subject {equal to the user name, different} x domain splitting {off, on} x user-name template {none, '{{ username }}@x', with '{{ token }}'} x session {none, fresh, logged in through the real callback} x 4 client address forms (peer only, forwarded IPv4, forwarded chain, a forwarded element that is not an address) (also with the login made from another address than the download); quick: template x address form on the diagonal (3 of 9 combinations), thorough: full product. Plus schedules with statement-level scheduling points (every statement of web, security, identity and rdp is a point): two logged-in browsers of different users download at the same time, without and with an .rdp template, every schedule with one deviation; every file must carry its own session's user, host, address and token. " +
 		"Each case drives the real router pieces (EnrichContext, Authenticated, HandleCallback, HandleDownload) with a scripted IdP. Oracle: not logged in => 302 to the IdP and no token anywhere; logged in => file well-formed, names the configured gateway, target chosen by the reference policy, the token's MAC verifies under the configured key and its claims are exactly {that host, session user (domain stripped iff splitting), reference client address, the session's access token, issuer, exp <= 5 min}; then (roundrobin / unsigned / any) the host and token are presented unmodified from the same address to the real tunnel path (EnrichContext, CheckPAACookie, CheckSession(CheckHost)) and must open the channel. distinct_nontrivial = distinct cases."
 	rep.Assumptions = append(rep.Assumptions, "cookie session store (C13 covers both stores)", "the IdP's userinfo subject equals the ID token subject", "round-robin's random pick is an enumerated input: math/rand in cmd/rdpgw/web is replaced by a harness-controlled source through the build overlay, and every entry is picked in turn")
 	modes := []string{"roundrobin", "signed", "unsigned", "any"}
 	lists := [][]string{{"hosta.example:3389"}, {"hosta.example:3389", "hostb.example:3390", "10.1.2.3:3389"}, {"hosta.example:3389", "my-{{ preferred_username }}-host:3389"}}
-	params := []string{"absent", "listed", "unlisted", "placeholder-verbatim", "qt-listed", "qt-unlisted", "qt-forged-key", "qt-expired", "qt-wrong-issuer", "qt-alg-none"}
+	params := []string{"absent", "listed", "unlisted", "unlisted+listed", "listed+unlisted", "placeholder-verbatim", "qt-listed", "qt-unlisted", "qt-forged-key", "qt-expired", "qt-wrong-issuer", "qt-alg-none"}
 	users := []string{"alice", "alice@example.com", "a@b@c", ""}
 	templates := []string{"", "{{ username }}@x", "{{ username }}:{{ token }}"}
 	sessions := []string{"none", "fresh", "auth"}
